@@ -64,6 +64,10 @@ def conds_attr(tier):
     for f in (FAULTS[:3] if tier == "quick" else FAULTS):
         cs.append(xhrun.Cond("harness_tb", "c19_attr", {"XH_FAULT": f, "XH_BASE": "fresh", "XH_DMAX": dmax, "XH_WARM": 1}, timeout=300,
                              label=f"c19_attr_{f}_fresh_warm", note=KIND[f]))
+    # the registry handed to run is a copy of a copy of the one the stores were registered with (store write / read-back / source read faults)
+    for f in (("addw", "addr", "srcr", "addm") if tier == "quick" else FAULTS):
+        cs.append(xhrun.Cond("harness_tb", "c19_attr", {"XH_FAULT": f, "XH_BASE": "fresh", "XH_DMAX": dmax, "XH_REGCOPY": 1}, timeout=300,
+                             label=f"c19_attr_{f}_fresh_registry_copy", note=KIND[f]))
     # the user's plan-building module has a name that starts like the library's ("uberjob_pipeline"): still the user's line
     for f in (FAULTS[:2] if tier == "quick" else FAULTS):
         cs.append(xhrun.Cond("harness_tb", "c19_attr", {"XH_FAULT": f, "XH_BASE": "fresh", "XH_DMAX": dmax, "XH_MODNAME": "uberjob_pipeline"}, timeout=300,
